@@ -346,6 +346,7 @@ const (
 // `settle` of simulated time, or until stop() returns true (checked only when nothing is runnable).
 func (w *World) Run(settle time.Duration, stop func() bool) RunResult {
 	idleSince := time.Now()
+	start := idleSince
 	for {
 		synctest.Wait()
 		w.cur = nil
@@ -370,6 +371,19 @@ func (w *World) Run(settle time.Duration, stop func() bool) RunResult {
 		var ext []int
 		if w.Ext != nil {
 			ext = w.Ext.Enabled(len(cand) == 0)
+		}
+		if settle >= time.Second && len(ext) == 0 && len(cand) > 0 && time.Since(start) > 40*settle {
+			// Periodic background activity only (unsynchronised long-poll pings, collector ticks) may never leave a
+			// gap of `settle`: with no external action left and none due, that is as quiet as it gets. A real
+			// livelock does not let simulated time pass and still ends at the step budget.
+			pending := false
+			if w.Ext != nil {
+				_, pending = w.Ext.NextDeadline()
+			}
+			if !pending {
+				w.Logf("settled by time bound")
+				return RunQuiescent
+			}
 		}
 		if len(cand)+len(ext) == 0 {
 			if stop != nil && stop() {
